@@ -4,6 +4,8 @@
 -/
 import Driver.C01
 import Driver.C02
+import Driver.C03
+import Driver.C07
 open Ws.Driver
 
 def dispatch (op : String) (args : List String) (obs : String) : String × String :=
@@ -16,6 +18,13 @@ def dispatch (op : String) (args : List String) (obs : String) : String × Strin
   | "crd" => c02crd args obs
   | "cwr" => c02cwr args obs
   | "mf" => c02mf args obs
+  | "chk" => c03chk args obs
+  | "cls" => c03cls args obs
+  | "body" => c03body args obs
+  | "parse" => c03parse args obs
+  | "pred" => c03pred args obs
+  | "spred" => c03spred args obs
+  | "u8" => c07u8 args obs
   | _ => ("UNKNOWN-OP", "skip")
 
 def handleLine (line : String) : String :=
